@@ -4,7 +4,7 @@ import S3V.Thm.FsWriteConc
 # C19 — object writes to the file-system backend are all-or-nothing (property theorems only)
 
 Model: `S3V/Model/FsWrite.lean` (steps of `prepare_file_write` / `copy_bytes` / checksum comparison / `done()` /
-side-file writes / `Drop for FileWriter`, current tree = after 3229285, 0096ef4, 47e9b00, 2ee4116). A *fault after step `k`* is
+side-file writes / `Drop for FileWriter`, current tree = after 3229285, 0096ef4, 47e9b00, 156124b). A *fault after step `k`* is
 `dropAfter k`: the request future is dropped there (client disconnect), which also covers an error return at that
 point because both run the same `Drop`. `run` is the call running to its answer (with the injected body errors,
 checksum mismatch, failing rename, failing side-file writes).
@@ -12,7 +12,7 @@ checksum mismatch, failing rename, failing side-file writes).
 Quantifiers: every list of body frames (any number, any bytes, errors anywhere), every previous content or none,
 every fault position `k` (no bound), every number of concurrent writers and every schedule.
 
-Repaired (2ee4116): one fault position used to leave the temporary file — the future dropped after
+Repaired (156124b): one fault position used to leave the temporary file — the future dropped after
 `File::create(tmp)` was issued on the blocking pool and before the `FileWriter` existed (`tmp-leftover:drop-at-create`,
 F-fswrite-2). The file is now created in the same poll in which the `FileWriter` is constructed (one step `create`), so
 the theorems below hold at EVERY fault position; the exclusion `DropAtCreate` and the suffix `_partial` are gone.
@@ -43,7 +43,7 @@ def AllOrNothingAt (c : Cfg) (old : Option Bytes) (m i : Side) (k : Nat) : Prop 
   (k ≤ c.frames.length + 4 → s.dest = old)
 
 /-- **All-or-nothing for `put_object`** — the full statement. For every body, every previous state and EVERY fault position
-    `k` (before 2ee4116 the position after `File::create(tmp)` had to be excluded: `C19_write_all_or_nothing_partial`,
+    `k` (before 156124b the position after `File::create(tmp)` had to be excluded: `C19_write_all_or_nothing_partial`,
     `DropAtCreate`) — in particular at every position inside `done()`, and whether `create_dir_all` / `rename`
     succeed or fail (`c.mkdirsFails`, `c.renameFails` are arbitrary) —: no temporary file remains; the destination holds the previous content or — only if no body
     item was an error — all body bytes in order; and at every position up to and including the last step before
